@@ -44,7 +44,10 @@ PLACES = ['head', 'head', 'after', 'before', 'acc']                             
 WRAPS = ['plain', 'plain', 'once', 'calln', 'calln1', 'findall1', 'notnot', 'ite', 'or']
 BASES = ['first', 'last', 'open_first', 'open_last']
 TOPS = ['plain', 'findall', 'findall', 'findall_f', 'findall_pair', 'findall_nested', 'findall_once', 'once', 'calln',
-        'not', 'notnot_then', 'and_findall', 'findall_then_mem', 'ite_findall', 'consume', 'findall_consume', 'twice']
+        'not', 'notnot_then', 'and_findall', 'findall_then_mem', 'ite_findall', 'consume', 'findall_consume', 'twice',
+        # no program at all: the builtin =/2 on two terms nested n deep (variables against constants at every level, both
+        # directions): every level of unify_arrays holds the suspended binding generators of its earlier elements
+        'unify_nested', 'unify_list']
 
 def gen_spec(rng, tier):
     spec = {'n': rng.choice([3, 5, 8, 10, 12, 15, 20, 25, 30, 40]),
@@ -53,7 +56,10 @@ def gen_spec(rng, tier):
             'direct': rng.random() < 0.5, 'via': rng.choice(['both', 'both', 'bounded', 'plain']),
             'lo': rng.choice([3, 4, 6, 10]), 'step': 1, 'hi': 420, 'probe_n': rng.choice([1, 1, 2, 3]),
             # the base case is a DYNAMIC fact (assert_fact; matched before the compiled clauses, against a renamed copy)
-            'dynbase': rng.random() < 0.2}
+            'dynbase': rng.random() < 0.2,
+            # the consumer abandons the query after that many answers (plain loop: break and drop / close; evaluate_bounded:
+            # the projection function raises StopIteration) - if the recursion limit has not ended it before
+            'stop_after': rng.choice([None, None, None, 1, 2, 3]), 'stop_how': rng.choice(['drop', 'close'])}
     if spec['base'].startswith('open') and spec['n'] > 15:
         spec['n'] = rng.choice([4, 6, 8, 10, 12])       # n+1 answers of growing depth: keep the total work small
     if spec['cons'] == 'count' and spec['n'] > 15:
@@ -178,6 +184,8 @@ def top_goal(spec, N, Lx, Bx):
         return ['findall', F('p', Lx, V('M')), C('rs', N, Lx, V('M')), Bx]
     if t == 'twice':
         return ['and', [G, C('r', N, Bx)]]
+    if t in ('unify_nested', 'unify_list'):
+        return G                        # (the program is not used by these queries)
     raise ValueError(t)
 
 def _goal_as_term(g, m):
@@ -202,6 +210,19 @@ def _goal_as_term(g, m):
 def build_query(spec, n):
     """(name, JSON args, nvars): the query with counter n; the caller's variables are _G0 (L) and _G1 (Bag)"""
     cnt = counter_term(spec, n)
+    if spec['top'] in ('unify_nested', 'unify_list'):
+        t1, t2 = A('e'), A('e')
+        for i in reversed(range(n)):
+            x, c = ['v', 2 + i], A('abc'[i % 3])
+            if i % 3 == 2:
+                x, c = c, x
+            if spec['top'] == 'unify_list':
+                t1, t2 = F('.', x, t1), F('.', c, t2)
+            elif i % 2:
+                t1, t2 = F('g', t1, x), F('g', t2, c)
+            else:
+                t1, t2 = F('g', x, t1), F('g', c, t2)
+        return '=', [t1, t2], 2 + n
     if spec.get('direct'):
         extra = {}
         def m(name):
@@ -276,10 +297,27 @@ def _canon(ts):
     return [terms.show_term(go(t)) for t in ts]
 
 def impl(case):
+    # A Variable that dies while the interpreter is AT the recursion limit cannot run the Python-level callback of the
+    # YLDPROLOG_VERIF weak set (WeakSet._remove needs a frame): CPython reports "Exception ignored in ... _remove:
+    # RecursionError" and the dead reference stays in the set's storage, where iteration skips it.  That is noise of the
+    # observation hook, not of the engine: counted, not printed.  Every other unraisable exception is passed on.
+    seen = [0]
+    old = sys.unraisablehook
+    def hook(u):
+        if u.exc_type is RecursionError and getattr(u.object, '__qualname__', '').endswith('WeakSet.__init__.<locals>._remove'):
+            seen[0] += 1
+            return
+        old(u)
+    sys.unraisablehook = hook
     try:
-        return _impl(case)
+        r = _impl(case)
+        if isinstance(r, dict):
+            r['weakset_noise'] = seen[0]
+        return r
     except _Budget:
         return ['budget']
+    finally:
+        sys.unraisablehook = old
 
 def _impl(case):
     from yldprolog import engine as E
@@ -385,9 +423,12 @@ def _impl(case):
         q = yp.query(name, args)
         lim0 = sys.getrecursionlimit()
         end = 'returned'
+        stop = spec.get('stop_after')
         if via == 'bounded':
             def proj(x):
                 answers.append(read_answer())
+                if stop and len(answers) >= stop:
+                    raise StopIteration
                 return None
             try:
                 yp.evaluate_bounded(q, proj, recursion_limit=_depth() + off)
@@ -397,9 +438,17 @@ def _impl(case):
             try:
                 try:
                     sys.setrecursionlimit(_depth() + off)
+                    end = 'done'
                     for _ in q:
                         answers.append(read_answer())
-                    end = 'done'
+                        if stop and len(answers) >= stop:
+                            end = 'abandoned'
+                            break
+                    if end == 'abandoned':
+                        if spec.get('stop_how') == 'close':
+                            q.close()
+                        else:
+                            q = None
                 finally:
                     sys.setrecursionlimit(lim0)
             except RecursionError:
@@ -444,7 +493,8 @@ def _impl(case):
             if what:
                 out['fail'] = {'off': off, 'via': via, 'what': what, 'answers': len(answers), 'end': end}
                 return out
-            complete = (end == 'done') if via == 'plain' else (len(answers) >= len(ref))
+            nfull = min(len(ref), spec.get('stop_after') or len(ref))
+            complete = (end in ('done', 'abandoned')) if via == 'plain' else (len(answers) >= nfull)
             if complete:
                 out['complete'] += 1
             else:
@@ -496,7 +546,7 @@ def describe(case):
             'probe': '%s(%s)' % (pname, ', '.join(terms.show_term(a) for a in pargs)),
             'dynamic_facts': ['%s(%s)' % (n, ', '.join(terms.show_term(a) for a in xs)) for n, xs in dyn_facts(spec)],
             'limits': 'depth of the caller + %d, +%d, ... (until 4 complete runs in a row, at most +%d)' % (spec['lo'], spec['lo'] + spec['step'], spec['hi']),
-            'through': spec['via']}
+            'through': spec['via'], 'consumer_stops_after': spec.get('stop_after'), 'how': spec.get('stop_how') if spec.get('stop_after') else None}
 
 def shrink(case):
     spec = case['spec']
@@ -517,6 +567,8 @@ def shrink(case):
         yield w(base='last')
     if spec.get('dynbase'):
         yield w(dynbase=False)
+    if spec.get('stop_after'):
+        yield w(stop_after=None)
     if spec['via'] == 'both':
         yield w(via='bounded')
         yield w(via='plain')
@@ -537,6 +589,7 @@ def distribution(cases, obs):
         d['sweep_cut'] += o['cut']
         d['sweep_complete'] += o['complete']
         d['sweep_budget'] += 1 if o.get('budget') else 0
+        d['sweep_weakset_noise'] = d.get('sweep_weakset_noise', 0) + o.get('weakset_noise', 0)
         for m, k in ((d['sweep_top'], c['spec']['top']), (d['sweep_wrap'], c['spec']['wrap']), (d['sweep_answers'], min(len(o['ref']), 10)),
                      (d['sweep_last_off'], (o['last_off'] or 0) // 50 * 50)):
             m[str(k)] = m.get(str(k), 0) + 1
